@@ -48,7 +48,7 @@ SHRINK_FIELDS = ["mutations"]
 _CHILDREN: List[Child] = []
 
 NEAR_MISS = ["cahce", "k_retreival", "enabeld", "t22", "sim_treshold", "budgest", "polcy", "max_worker", "alpha_sim ", "Tiers", "xyz", ""]
-BAD_LEAVES: List[Any] = ["str", "", [], {}, None, True, -1, 0, 10**30, 1e308, -1e308, float("nan"), float("inf"), float("-inf"), [1, 2], {"x": 1}, "1", "true", 3.7,
+BAD_LEAVES: List[Any] = ["str", "", [], {}, None, True, -1, 0, 10**30, 10**400, -10**400, {"$pow10": 5000}, 1e308, -1e308, float("nan"), float("inf"), float("-inf"), [1, 2], {"x": 1}, "1", "true", 3.7,
                         [[1]], [{}], [["t2:semantic"]], [None], [1.5, "x"], {"a": [1]}, [[]]]
 LIST_KNOBS = [(["t4", "cache", "namespaces"], ["t2:semantic"]), (["t2", "tiers"], ["exact_semantic", "archive"]),
               (["t2", "lancedb"], {"partitions": {"by": ["owner", "quarter"], "shard_order": "lex"}}),
@@ -67,7 +67,7 @@ EXTRA_NUMERIC = ["t1.iter_cap", "t1.queue_budget", "t1.node_budget", "t1.radius_
                  "perf.parallel.max_workers", "scheduler.budgets.t1_pops", "scheduler.budgets.t1_iters", "scheduler.budgets.t2_k", "scheduler.budgets.t3_ops",
                  "t4.cooldowns.EditGraph", "k_surface"]
 LADDER: List[Any] = [0, 1, 2, 3, 16, 17, 100, 1000, 4096, 65535, 65536, 10**5, 700000, 738000, 800000, 10**6 - 1, 10**6, 10**6 + 1, 10**7, 2**31 - 1, 2**31, 2**63 - 1, 2**63, 2**64,
-                     -1, -2, 0.5, 0.999999, 1.0, 1.000001, 1e-9, 1e-300, 5e-324, -1e-9, -0.0, 0.1 + 0.2, 1e6, 1e9, 1e15, 1e16, 1e18, 1e100, 1e200, 1e308, 2.5, "7", "0.5", " 3 ", "1e3"]
+                     -1, -2, 0.5, 0.999999, 1.0, 1.000001, 1e-9, 1e-300, 5e-324, -1e-9, -0.0, 0.1 + 0.2, 1e6, 1e9, 1e15, 1e16, 1e18, 1e100, 1e200, 1e308, 10**400, -10**400, 2.5, "7", "0.5", " 3 ", "1e3"]
 
 
 def _numeric_paths() -> List[List[str]]:
@@ -201,6 +201,8 @@ def build(p: Dict[str, Any]) -> Any:
             if v is None:
                 continue
             m = dict(m, value=v)
+        if isinstance(m.get("value"), dict) and set(m["value"]) == {"$pow10"}:
+            m = dict(m, value=10 ** int(m["value"]["$pow10"]))   # kept symbolic in the program: no decimal text exists for it
         cur = tree
         ok = True
         for k in m["path"][:-1]:
@@ -250,6 +252,43 @@ def cli_validate(text: str) -> Dict[str, Any]:
             pass
 
 
+def _fp(o: Any) -> Any:
+    """Structural fingerprint (type-exact, order-preserving) that also works for integers without a decimal text."""
+    if isinstance(o, dict):
+        return ("d", tuple((_fp(k), _fp(v)) for k, v in o.items()))
+    if isinstance(o, (list, tuple)):
+        return ("l" if isinstance(o, list) else "t", tuple(_fp(x) for x in o))
+    if isinstance(o, bool) or o is None:
+        return ("c", o)
+    if isinstance(o, int):
+        return ("i", o.bit_length(), o % 2305843009213693951, o < 0)
+    if isinstance(o, float):
+        return ("f", "nan" if o != o else repr(o))
+    return (type(o).__name__, repr(o)[:200])
+
+
+def _safe(e: BaseException) -> str:
+    try:
+        return repr(e)[:200]
+    except Exception:  # noqa: BLE001
+        return type(e).__name__
+
+
+def _show(tree: Any, text: Optional[str]) -> str:
+    if text is not None:
+        return text[:400]
+
+    def short(o):
+        if isinstance(o, dict):
+            return {short(k) if not isinstance(k, str) else k: short(v) for k, v in o.items()}
+        if isinstance(o, list):
+            return [short(x) for x in o]
+        if isinstance(o, int) and not isinstance(o, bool) and abs(o) > 10**30:
+            return "<int with %d bits>" % o.bit_length()
+        return o
+    return repr(short(tree))[:400]
+
+
 def _classify_exc(e: BaseException) -> str:
     import traceback
     tb = traceback.extract_tb(e.__traceback__)
@@ -266,14 +305,18 @@ def execute(p: Dict[str, Any]) -> Dict[str, Any]:
             viol.append({"cls": "config", "sig": sig, "detail": detail})
 
     tree_mem = build(p)
+    text: Optional[str]
     try:
         text = yaml.safe_dump(tree_mem, sort_keys=False, allow_unicode=True)
         tree = yaml.safe_load(text)
     except Exception:
-        return {"violations": [], "stats": {"unserialisable": 1}, "faults": {}, "nontrivial": False, "key": "unser", "sim_s": 0.0, "log": ""}
+        # no YAML text exists for this mapping (e.g. an integer beyond the int<->str digit limit): the in-memory API variants
+        # are still in the quantifier ("JSON/YAML-shaped input"), only the CLI comparison is skipped
+        text, tree = None, copy.deepcopy(tree_mem)
+        stats["no_yaml_text"] = 1
     if not isinstance(tree, dict):
         tree = {} if tree is None else tree
-    snapshot = repr(tree)
+    snapshot = _fp(tree)
     # ---- totality + purity of the primary API ----
     verdict: Dict[str, Any] = {}
     try:
@@ -285,38 +328,38 @@ def execute(p: Dict[str, Any]) -> Dict[str, Any]:
         norm = None
         verdict = {"ok": False, "msgs": str(e).strip().split("\n")}
     except Exception as e:  # noqa: BLE001
-        bad("total:validate_config:%s" % _classify_exc(e), "%r on %s" % (e, text[:300]))
-        return {"violations": viol, "stats": stats, "faults": {}, "nontrivial": True, "key": E.jdigest(text), "sim_s": 0.0, "log": "exc"}
-    if repr(tree) != snapshot:
-        bad("purity:input-mutated", "validate_config changed its argument: %s" % text[:300])
+        bad("total:validate_config:%s" % _classify_exc(e), "%r on %s" % (str(e)[:200], _show(tree, text)))
+        return {"violations": viol, "stats": stats, "faults": {}, "nontrivial": True, "key": E.jdigest(_show(tree, text)), "sim_s": 0.0, "log": "exc"}
+    if _fp(tree) != snapshot:
+        bad("purity:input-mutated", "validate_config changed its argument: %s" % _show(tree, text))
     stats["accepted" if verdict["ok"] else "rejected"] = 1
     # ---- API variants ----
     try:
         ok2, errs2, cfg2 = V.validate_config_api(copy.deepcopy(tree))
-        if ok2 != verdict["ok"] or (not ok2 and errs2 != verdict["msgs"]) or (ok2 and repr(cfg2) != repr(norm)):
+        if ok2 != verdict["ok"] or (not ok2 and errs2 != verdict["msgs"]) or (ok2 and _fp(cfg2) != _fp(norm)):
             bad("consistency:validate_config_api", "api says ok=%s errs=%s; primary ok=%s msgs=%s" % (ok2, errs2[:3], verdict["ok"], verdict["msgs"][:3]))
     except Exception as e:  # noqa: BLE001
-        bad("total:validate_config_api:%s" % _classify_exc(e), repr(e)[:200])
+        bad("total:validate_config_api:%s" % _classify_exc(e), _safe(e))
     try:
         n3, w3 = V.validate_config_verbose(copy.deepcopy(tree))
-        if not verdict["ok"] or repr(n3) != repr(norm):
+        if not verdict["ok"] or _fp(n3) != _fp(norm):
             bad("consistency:validate_config_verbose", "verbose accepted/normalised differently")
     except ConfigError as e:
         if verdict["ok"] or str(e).strip().split("\n") != verdict["msgs"]:
             bad("consistency:validate_config_verbose", "verbose raised %s; primary ok=%s" % (str(e)[:200], verdict["ok"]))
     except Exception as e:  # noqa: BLE001
-        bad("total:validate_config_verbose:%s" % _classify_exc(e), repr(e)[:200])
+        bad("total:validate_config_verbose:%s" % _classify_exc(e), _safe(e))
     try:
         errs4, warns4 = V.validate_config(copy.deepcopy(tree), strict=True)
         if (not errs4) != verdict["ok"] or (errs4 and list(errs4) != verdict["msgs"]):
             bad("consistency:compat-form", "compat errs=%s; primary ok=%s msgs=%s" % (list(errs4)[:3], verdict["ok"], verdict["msgs"][:3]))
     except Exception as e:  # noqa: BLE001
-        bad("total:compat-form:%s" % _classify_exc(e), repr(e)[:200])
+        bad("total:compat-form:%s" % _classify_exc(e), _safe(e))
     # ---- CLI in other interpreters / hash seeds ----
     if not _CHILDREN:
         _CHILDREN.extend([Child("1"), Child("2")])
     faults: Dict[str, int] = {}
-    for ch in _CHILDREN:
+    for ch in (_CHILDREN if text is not None else []):
         try:
             res = ch.call("checks.c14", "cli_validate", {"text": text})
         except ChildError as e:
@@ -389,8 +432,8 @@ def execute(p: Dict[str, Any]) -> Dict[str, Any]:
                         finally:
                             signal.alarm(0)
                     except Exception as e:  # noqa: BLE001
-                        bad("runnable:%s" % _classify_exc(e), "accepted config made a turn raise %r; config: %s" % (e, text[:400]))
+                        bad("runnable:%s" % _classify_exc(e), "accepted config made a turn raise %r; config: %s" % (str(e)[:200], _show(tree, text)))
                     finally:
                         E.set_world_dim(prev_dim)
     return {"violations": viol, "stats": stats, "faults": faults, "nontrivial": bool(p["mutations"]) or bool(stats.get("executed")),
-            "key": E.jdigest(text), "sim_s": 0.0, "log": E.jdigest([verdict, viol])}
+            "key": E.jdigest(_show(tree, text)), "sim_s": 0.0, "log": E.jdigest([verdict, viol])}
